@@ -167,6 +167,17 @@ func (l *Lifter) op(e ast.Expr) string {
 	return r
 }
 
+// invalidType: the type checker could not give e a type (the emitted file has
+// a type error that reaches it).
+func (l *Lifter) invalidType(e ast.Expr) bool {
+	t := l.Info.TypeOf(e)
+	if t == nil {
+		return true
+	}
+	b, ok := t.Underlying().(*types.Basic)
+	return ok && b.Kind() == types.Invalid
+}
+
 func (l *Lifter) isIdent(e ast.Expr, name string) bool {
 	id, ok := unparen(e).(*ast.Ident)
 	return ok && id.Name == name
